@@ -53,12 +53,22 @@ func (s *Segment) getDocStoredOffsets(buf []byte, docNum uint64) (indexOffset, s
 		return 0, 0, 0, 0, 0, buf, err
 	}
 
-	metaLenData := uncompressed[int(storedOffset):int(storedOffset+binary.MaxVarintLen64)]
+	// a record near the end of the block can be shorter than the varint
+	// look-ahead window, so clamp the window to the block
+	metaLenEnd := int(storedOffset + binary.MaxVarintLen64)
+	if metaLenEnd > len(uncompressed) {
+		metaLenEnd = len(uncompressed)
+	}
+	metaLenData := uncompressed[int(storedOffset):metaLenEnd]
 	var read int
 	metaLen, read = binary.Uvarint(metaLenData)
 	n += uint64(read)
 
-	dataLenData := uncompressed[int(storedOffset+n):int(storedOffset+n+binary.MaxVarintLen64)]
+	dataLenEnd := int(storedOffset + n + binary.MaxVarintLen64)
+	if dataLenEnd > len(uncompressed) {
+		dataLenEnd = len(uncompressed)
+	}
+	dataLenData := uncompressed[int(storedOffset+n):dataLenEnd]
 	dataLen, read = binary.Uvarint(dataLenData)
 	n += uint64(read)
 
